@@ -344,7 +344,28 @@ def node_problems(graph, imports, where, out):
                 node_problems(a.g, imports, f"{where}/{n.name}.{a.name}", out)
 
 
+RUNTIME_STAGES = ("runtime-rejects", "runtime-fails", "results-differ")
+UNSUPPORTED: list = []
+
+
 def judge(prog, obs):
+    """Model-free verdict on one program. A failure at run time counts only if the same program with all
+    constructors from one opset module runs and agrees with the numpy evaluator (otherwise the runtime,
+    or the evaluator, does not support the program at all: recorded, not a verdict)."""
+    v = judge1(prog, obs)
+    if v is not None and v[0] in RUNTIME_STAGES:
+        base = L.uniform(prog)
+        if base != prog:
+            b = judge1(base, observe(base))
+        else:
+            b = v
+        if b is not None and b[0] in RUNTIME_STAGES:
+            UNSUPPORTED.append((v[0], v[1][:120]))
+            return None
+    return v
+
+
+def judge1(prog, obs):
     """Model-free verdict on one program. Returns (stage, message) of the first failure, or None."""
     import onnx
     import onnxruntime as ort
@@ -515,7 +536,7 @@ def shrink(prog, stage, budget=120):
 
     if len(cur["outs"]) > 1:
         for o in list(cur["outs"]):
-            cand = L.prune(dict(cur, outs=[o]))
+            cand = L.sink(L.prune(dict(cur, outs=[o])))
             if cand["nodes"] and still(cand):
                 cur = cand
                 break
@@ -526,7 +547,7 @@ def shrink(prog, stage, budget=120):
             cand = remove(cur, sid)
             if cand is None:
                 continue
-            cand = L.prune(cand)
+            cand = L.sink(L.prune(cand))
             if not cand["nodes"] or any(o in ("x", "y") for o in cand["outs"]):
                 continue
             if still(cand):
@@ -747,6 +768,7 @@ def run(ck: core.Check):
         "policy_cases": n_policy,
         "schema_lookups_compared": n_sch,
         "distribution": stats,
+        "runtime_unsupported": {"count": len(UNSUPPORTED), "examples": UNSUPPORTED[:3]},
     })
     ck.exhaustive = False
     ck.rule = (
